@@ -9,6 +9,8 @@ def run(ctx):
                         "content change = one media byte flipped at a position outside the manifest"]
     r = tlc_expect_ok(tlc("MC_UpdateManifest", "MC_UpdateManifest.cfg", name="mc_update", workers=4, timeout=600), "MC UpdateManifest")
     ctx.add_tlc(r)
+    if not ctx.quick:
+        ctx.add_tlc(tlc_expect_ok(tlc("MC_UpdateManifest", "MC_UpdateManifest_deep.cfg", name="mc_update_deep", workers=4, timeout=600, coverage=False), "MC UpdateManifest MaxSteps=8"))
     cov = r.coverage()
     for a in ("Update", "Tamper"):
         if cov.get(a, (0, 0))[1] == 0:
